@@ -203,7 +203,16 @@ func historyPass(c *core.Ctx, id string) {
 					if m := a.modified(); m != "" && q == nil {
 						c.Violate(id+"/history/argument-modified", fmt.Sprintf("%s wrote to %s of its caller", ops[o].name, m), ops[o].name, "", nil)
 					}
+					var h0 string
+					if a.hold != nil && q == nil {
+						h0 = a.hold()
+					}
 					a.wipe() // the caller wipes / recycles every buffer it passed in
+					if a.hold != nil && q == nil {
+						if h1 := a.hold(); h1 != h0 {
+							c.Violate(id+"/history/result-aliases-argument", fmt.Sprintf("the result of %s changed from %.80q to %.80q when the caller overwrote the buffers it had passed in", ops[o].name, h0, h1), ops[o].name, "", nil)
+						}
+					}
 					if i == len(hist)-1 {
 						got, p = g, q
 					}
